@@ -447,3 +447,52 @@ def check_measure_encodings(ctx, rule: str):
             ctx.ob(rule, construct(fi, f"`{short(n, 60)}` is not invariant under re-encoding"), False, loc(fi, n), why)
         if not bad:
             ctx.ob(rule, construct(fi, "no unit-dependent tolerance / rounding and no one-sided order statistic on the feature"), True, loc(fi))
+
+
+def check_filter_wrappers(ctx, rule: str):
+    """A named filter applies the statistic it is named after: cramerv_filter -> cramerv_measure,
+    tschuprowt_filter -> tschuprowt_measure, spearman_filter -> 'spearman', pearson_filter -> 'pearson'."""
+    repo = ctx.repo
+    n = 0
+    for mod in repo.modules.values():
+        if "/selectors/filters/" not in mod.relpath.replace("\\", "/"):
+            continue
+        for fi in mod.functions.values():
+            if not fi.name.endswith("_filter") or fi.name in ("thresh_filter", "quantitative_filter", "qualitative_filter"):
+                continue
+            stem = fi.name[: -len("_filter")]
+            inner = [c for c in calls(fi) if call_name(c) in ("quantitative_filter", "qualitative_filter")]
+            if not inner:
+                continue
+            n += 1
+            c = inner[0]
+            m = kwarg(c, "corr_measure") or (c.args[2] if len(c.args) > 2 else None)
+            txt = unparse(m) if m is not None else ""
+            ok = len(inner) == 1 and stem in txt.lower()
+            ctx.ob(rule, construct(fi, f"{fi.name} filters on the {stem} statistic"), ok, loc(fi, c),
+                   "" if ok else f"it passes `{txt}`: features correlated above thresh_corr for the {stem} statistic can both be returned")
+    return n
+
+
+def check_target_alignment(ctx, rule: str):
+    """Rows of X and y are matched by label: a Series / DataFrame built from the values of y or X inside
+    the selectors keeps the original index (index=...), otherwise every measure pairs the wrong rows as
+    soon as X does not carry the default RangeIndex."""
+    repo = ctx.repo
+    bad = []
+    n = 0
+    for mod in repo.modules.values():
+        if "/selectors/" not in mod.relpath.replace("\\", "/"):
+            continue
+        for fi in list(mod.functions.values()) + [m for c in mod.classes.values() for m in c.methods.values()]:
+            for c in ast.walk(fi.node):
+                if isinstance(c, ast.Call) and call_name(c) in ("Series", "DataFrame") and c.args and isinstance(c.func, ast.Name):
+                    a0 = c.args[0]
+                    names = {x.id for x in ast.walk(a0) if isinstance(x, ast.Name)}
+                    raw = any(isinstance(x, ast.Call) and call_name(x) in ("asarray", "array", "to_numpy", "list", "tolist") for x in ast.walk(a0)) or any(isinstance(x, ast.Attribute) and x.attr == "values" for x in ast.walk(a0))
+                    if names & {"X", "y", "x"} and raw:
+                        n += 1
+                        if kwarg(c, "index") is None:
+                            bad.append((fi, c))
+    ctx.ob(rule, "selectors::frames rebuilt from the raw values of X / y keep the original index", not bad, loc(bad[0][0], bad[0][1]) if bad else "",
+           "" if not bad else f"`{short(bad[0][1], 70)}` in {bad[0][0].qualname} drops the index: measures align rows by label, so a shuffled / filtered X is paired with the wrong targets")
